@@ -161,6 +161,9 @@ class FrameItem(EFLRItem):
         if np.issubdtype(index_data.dtype, np.integer):
             # differences of unsigned or narrow integers must not wrap around
             index_data = index_data.astype(np.int64)
+        elif index_data.dtype.kind == 'f' and index_data.dtype.itemsize < 8:
+            # differences of 32-bit floats must not overflow (the spacing is stored as a 64-bit float)
+            index_data = index_data.astype(np.float64)
 
         diff = np.diff(index_data)
         if diff.size == 0:
